@@ -1,6 +1,8 @@
 import PhyVerif.Model.C05
 import PhyVerif.Spec.C05
 import PhyVerif.Lemmas.C05
+import PhyVerif.Lemmas.C05b
+import PhyVerif.Spec.C09b
 /-!
 # C05 — template records are aligned with their channel list (dense and sparse storage)
 Only property theorems + non-vacuity examples; proofs in `Lemmas/C05.lean`.
@@ -13,7 +15,9 @@ non-increasing peak-to-peak amplitude, the first one (and the reported best chan
 maximum; column j is the waveform on listed channel j and amplitude j its peak-to-peak; a channel
 is listed iff it reaches the threshold fraction of the peak, lies on the best channel's shank and
 is among the nearest channels of the best channel (determined whenever there is no distance tie
-exactly at the cut). -/
+exactly at the cut; with a tie, `nearCountOK`: the listed channels are the eligible ones of a set of EXACTLY
+`n_closest` nearest channels — not more of the tied channels than such a set holds, and no eligible one left
+out that every such set would have to hold). -/
 theorem dense_record_ok (g : Geometry) (T : Mat) (thr : Rat) (hwf : DenseWF g T)
     (h0 : 0 ≤ thr) (h1 : thr ≤ 1) :
     let (ids, amp, best) := findBestChannels g T thr
@@ -21,37 +25,68 @@ theorem dense_record_ok (g : Geometry) (T : Mat) (thr : Rat) (hwf : DenseWF g T)
   Lemmas.dense_record_ok g T thr hwf h0 h1
 
 /-- `get_template` on dense storage returns that record for the (optionally unwhitened) waveform. -/
-theorem getTemplateDense_auto (g : Geometry) (wmi Tw : Mat) (thr : Rat) (unwh : Bool) :
-    getTemplateDense g wmi Tw none thr unwh =
-      (let T := if unwh then unwhiten wmi Tw none else Tw
+theorem getTemplateDense_auto (g : Geometry) (wmi : Mat) (sc : Rat) (Tw : Mat) (thr : Rat) (unwh : Bool) :
+    getTemplateDense g wmi sc Tw none thr unwh =
+      (let T := if unwh then unwhiten wmi sc Tw none else Tw
        let r := findBestChannels g T thr
        ⟨T.map fun row => r.1.map fun c => row.getD c 0, r.1, r.2.1, r.2.2⟩) :=
-  Lemmas.getTemplateDense_auto g wmi Tw thr unwh
+  Lemmas.getTemplateDense_auto g wmi sc Tw thr unwh
 
-/-- Dense storage, caller's explicit channel list: returned list = caller's list, column j the
-waveform on listed channel j, amplitude j that column's peak-to-peak. -/
-theorem dense_explicit_ok (g : Geometry) (wmi Tw : Mat) (l : List Nat) (thr : Rat) (unwh : Bool)
-    (hwf : DenseWF g (if unwh then unwhiten wmi Tw none else Tw))
-    (hl : ∀ c ∈ l, c < ncols (if unwh then unwhiten wmi Tw none else Tw)) :
-    denseExplicitOK (if unwh then unwhiten wmi Tw none else Tw) l
-      (getTemplateDense g wmi Tw (some l) thr unwh) = true :=
-  Lemmas.dense_explicit_ok g wmi Tw l thr unwh hwf hl
+/-- What "unwhitened" means, entry by entry (model.py:753-760): sample `s`, channel `j` of the unwhitened waveform
+is `(Σ_k x[s, k] · wmi[k, j]) · template_scaling` (`template_scaling` of params.py, 1 when absent).  `hrow`: a
+row of `x` whose length is not the number of rows of `wmi` makes the real code raise (AssertionError,
+model.py:758). -/
+theorem unwhiten_entry (wmi : Mat) (sc : Rat) (x : Mat) (s j : Nat) (hs : s < x.length)
+    (hj : j < ncols wmi) (hrow : (x.getD s []).length = wmi.length) :
+    entry (unwhiten wmi sc x none) s j = (sumTo wmi.length fun k => entry x s k * entry wmi k j) * sc :=
+  Lemmas.unwhiten_entry wmi sc x s j hs hj hrow
 
-/-- Sparse storage: listed channels are the stored ones minus unused (−1) and signal-free ones,
-ordered by non-increasing amplitude, peak first, columns and amplitudes aligned with them; the
-waveform is unwhitened on the kept sub-matrix. -/
-theorem sparse_record_ok (wmi Tw : Mat) (cols : List Int) (unwh : Bool)
+/-- Sparse storage unwhitens on the sub-matrix of the kept channels `ch`: column `j` of the result belongs to
+channel `ch[j]` and `unwhiten(x, ch)[s, j] = (Σ_k x[s, k] · wmi[ch[k], ch[j]]) · template_scaling`. -/
+theorem unwhiten_entry_sub (wmi : Mat) (sc : Rat) (x : Mat) (ch : List Nat) (s j : Nat) (hs : s < x.length)
+    (hj : j < ch.length) (hrow : (x.getD s []).length = ch.length) :
+    entry (unwhiten wmi sc x (some ch)) s j =
+      (sumTo ch.length fun k => entry x s k * entry wmi (ch.getD k 0) (ch.getD j 0)) * sc :=
+  Lemmas.unwhiten_entry_sub wmi sc x ch s j hs hj hrow
+
+/-- Dense storage, caller's explicit channel list (any list, the empty one included): returned list = caller's
+list, column j the waveform on listed channel j, amplitude j that column's peak-to-peak. -/
+theorem dense_explicit_ok (g : Geometry) (wmi : Mat) (sc : Rat) (Tw : Mat) (l : List Nat) (thr : Rat) (unwh : Bool)
+    (hwf : DenseWF g (if unwh then unwhiten wmi sc Tw none else Tw))
+    (hl : ∀ c ∈ l, c < ncols (if unwh then unwhiten wmi sc Tw none else Tw)) :
+    denseExplicitOK (if unwh then unwhiten wmi sc Tw none else Tw) l
+      (getTemplateDense g wmi sc Tw (some l) thr unwh) = true :=
+  Lemmas.dense_explicit_ok g wmi sc Tw l thr unwh hwf hl
+
+/-- Sparse storage: listed channels are the stored ones minus unused and signal-free ones (`keptCols`, spelled out
+in `sparse_listed_iff`), ordered by non-increasing amplitude, peak first, columns and amplitudes aligned with
+them; the waveform is unwhitened on the kept sub-matrix.  `m` is the table's "−1" (`minusOne`: −1 in a signed
+table, the all-ones value in an unsigned one).  `hdist`: a channel stored twice in one row is outside the
+property (which column would be "the template on that channel"?); the real code then lists it twice. -/
+theorem sparse_record_ok (wmi : Mat) (sc : Rat) (Tw : Mat) (cols : List Int) (m : Int) (unwh : Bool)
     (hrect : ∀ row ∈ Tw, row.length = cols.length) (hT : Tw ≠ [])
-    (hcols : ∀ c ∈ cols, c = -1 ∨ 0 ≤ c) (hdist : (cols.filter (· ≠ -1)).Nodup) :
-    let k := cols.length
-    let tmax := (List.range k).map fun j => listMax ((col Tw j).map fun x => if x < 0 then -x else x)
-    let keep := (List.range k).filter fun j =>
-      decide (tmax.getD j 0 > listMax tmax * (1 / 1000000)) && cols.getD j 0 != -1
+    (hcols : ∀ c ∈ cols, c = m ∨ 0 ≤ c) (hdist : (cols.filter (· ≠ m)).Nodup) :
+    let keep := keptCols Tw cols m
     let ch := keep.map fun j => (cols.getD j 0).toNat
     let sub : Mat := Tw.map fun row => keep.map fun j => row.getD j 0
-    sparseOK ch (if unwh then unwhiten wmi sub (some ch) else sub)
-      (getTemplateSparse wmi Tw cols unwh) = true :=
-  Lemmas.sparse_record_ok wmi Tw cols unwh hrect hT hcols hdist
+    sparseOK ch (if unwh then unwhiten wmi sc sub (some ch) else sub)
+      (getTemplateSparse wmi sc Tw cols m unwh) = true :=
+  Lemmas.sparse_record_ok wmi sc Tw cols m unwh hrect hT hcols hdist
+
+/-- Sparse storage, "the stored channels minus unused (−1) and signal-free ones": channel `c` is listed iff some
+stored column `j` holds it, is in use (`cols[j] ≠ m`) and carries signal — its largest absolute value exceeds
+`1e-6` of the largest absolute value over the columns IN USE (`usedMax_spec`: that reference value is attained on a
+used column and bounds every used column; what an unused column holds does not enter). -/
+theorem sparse_listed_iff (wmi : Mat) (sc : Rat) (Tw : Mat) (cols : List Int) (m : Int) (unwh : Bool) (c : Nat) :
+    c ∈ (getTemplateSparse wmi sc Tw cols m unwh).channels ↔
+      ∃ j, j < cols.length ∧ (cols.getD j 0).toNat = c ∧ cols.getD j 0 ≠ m ∧
+        colAbsMax Tw j > listMax ((usedCols cols m).map (colAbsMax Tw)) * (1 / 1000000) :=
+  Lemmas.sparse_listed_iff wmi sc Tw cols m unwh c
+
+theorem usedMax_spec (Tw : Mat) (cols : List Int) (m : Int) (h : usedCols cols m ≠ []) :
+    (∃ j ∈ usedCols cols m, colAbsMax Tw j = listMax ((usedCols cols m).map (colAbsMax Tw))) ∧
+    ∀ j ∈ usedCols cols m, colAbsMax Tw j ≤ listMax ((usedCols cols m).map (colAbsMax Tw)) :=
+  Lemmas.usedMax_spec Tw cols m h
 
 /-! Non-vacuity -/
 example :
@@ -71,7 +106,25 @@ example :
     r = ([2, 1], [18, 8], 2) ∧
     denseOK g T (1/4) ⟨T.map fun row => r.1.map fun c => row.getD c 0, r.1, r.2.1, r.2.2⟩ = true := by
   decide +kernel
-example : (getTemplateSparse [[1, 0, 0], [0, 2, 0], [0, 0, 4]] [[1, 6, 0, 3], [-1, 0, 0, 3]] [2, 0, -1, 1] true).channels
+example : (getTemplateSparse [[1, 0, 0], [0, 2, 0], [0, 0, 4]] 1 [[1, 6, 0, 3], [-1, 0, 0, 3]] [2, 0, -1, 1] (-1) true).channels
     = [2, 0, 1] := by decide +kernel
+-- a distance tie at the cut (channels 1 and 3 both 20 away from the peak channel 2, n_closest = 2): a record may
+-- hold either of them, not both and not neither
+example :
+    let g : Geometry := ⟨[(0, 0), (0, 20), (0, 40), (0, 60)], none, 2⟩
+    let T : Mat := [[1, 5, 9, 4], [0, 0, 0, 0]]
+    let rec_ (l : List Nat) : Record := ⟨T.map fun row => l.map fun c => row.getD c 0, l, l.map fun c => ptp (col T c), 2⟩
+    denseOK g T 0 (rec_ [2, 1]) = true ∧ denseOK g T 0 (rec_ [2, 3]) = true ∧
+    denseOK g T 0 (rec_ [2, 1, 3]) = false ∧ denseOK g T 0 (rec_ [2]) = false ∧
+    denseBaseOK g T 0 (rec_ [2, 1, 3]) = true ∧ denseBaseOK g T 0 (rec_ [2]) = true := by decide +kernel
+-- template_scaling 20, whitening inverse diag(1/2, 2): [[2, 3]] -> [[2*1/2*20, 3*2*20]]
+example : unwhiten [[1/2, 0], [0, 2]] 20 [[2, 3]] none = [[20, 120]] := by decide +kernel
+-- sparse: an unused column holding a large value does not make channel 5 (1/100000 of the largest USED column) signal-free;
+-- channel 7 (1/10000000 of it) is; the unsigned all-ones value is the "-1" of a uint32 table
+example : (getTemplateSparse [] 1 [[100, 1 / 100000, 1, 1 / 10000000], [0, 0, -1, 0]] [-1, 5, 6, 7] (-1) false).channels
+    = [6, 5] := by decide +kernel
+example : minusOne true 32 = 4294967295 ∧ minusOne false 32 = -1 := by decide
+example : (getTemplateSparse [] 1 [[100, 3, 1], [0, 0, -1]] [4294967295, 5, 6] (minusOne true 32) false).channels
+    = [5, 6] := by decide +kernel
 
 end PhyVerif.C05
